@@ -69,6 +69,8 @@ def main():
     ap.add_argument("--tier", default="quick")
     ap.add_argument("--only")
     ap.add_argument("--seeded", action="store_true")
+    ap.add_argument("--props", help="with --seeded: only the seeded changes of these properties (comma-separated); results are merged into selfval/seeded.json")
+    ap.add_argument("--ids", help="with --seeded: only these seeded changes (comma-separated); results are merged into selfval/seeded.json")
     a = ap.parse_args()
     results = []
     if a.seeded:
@@ -81,6 +83,10 @@ def main():
                 continue
             m = json.loads(meta.read_text())
             if a.only and a.only != d.name:
+                continue
+            if a.props and m["property"] not in a.props.split(","):
+                continue
+            if a.ids and d.name not in a.ids.split(","):
                 continue
             for prop in m.get("checks", [m["property"]]):
                 todo.append((prop, d))
@@ -97,6 +103,9 @@ def main():
         with cf.ThreadPoolExecutor(max_workers=int(os.environ.get("SELFVAL_JOBS", "1"))) as ex:
             results = list(ex.map(one, todo))
         out = VERIF / "selfval" / "seeded.json"
+        if (a.props or a.ids) and out.exists():
+            redone = {(r["seeded"], r["property"]) for r in results}
+            results = sorted([r for r in json.loads(out.read_text()) if (r["seeded"], r["property"]) not in redone] + results, key=lambda r: (r["seeded"], r["property"]))
     else:
         import concurrent.futures as cf
 
